@@ -1,16 +1,254 @@
+import ActixNet.Model.Service
 import Driver.Util
-/-! Engine `svc`: line protocol (stub — filled in by the owner of this engine). -/
+/-!
+Engine `svc` (C11, C12): line protocol for the service-combinator model.
+
+```
+case <name>            -> ok            (no current service, waker counter 0)
+svc <S>                -> ok            (S becomes the current service)
+fac <F> <cfg>          -> [events] r=ok|err:E|panic|stuck   (new_service(cfg) driven to completion;
+                                         on ok the built service becomes the current service)
+ready                  -> [events] r=pending|ok|err:E       (one poll_ready, fresh waker)
+call <req>             -> [events] r=ok:V|err:E|panic|stuck (call + drive, fresh waker per poll)
+```
+S and F are s-expressions, see `parseSvc` / `parseFac`.  Numbers have at most 6 digits.
+-/
 namespace Driver.Svc
-open Driver
+open Driver ActixNet.Service
 
 structure State where
-  dummy : Nat := 0
+  svc : Option Svc := none
+  w : Nat := 0
 
 def init : State := {}
 
+def tokenize (s : String) : List String :=
+  let rec go : List Char → List Char → List String → List String
+    | [], cur, acc => (if cur.isEmpty then acc else String.ofList cur.reverse :: acc).reverse
+    | c :: t, cur, acc =>
+      let acc' := if cur.isEmpty then acc else String.ofList cur.reverse :: acc
+      if c == '(' then go t [] ("(" :: acc')
+      else if c == ')' then go t [] (")" :: acc')
+      else if c == ' ' || c == '\t' || c == '\r' || c == '\n' then go t [] acc'
+      else go t (c :: cur) acc
+  go s.toList [] []
+
+def num (s : String) : Option Nat :=
+  if s.length = 0 ∨ s.length > 6 then none
+  else if s.toList.all (fun c => '0' ≤ c ∧ c ≤ '9') then s.toNat? else none
+
+def okErr : String → Option Bool
+  | "ok" => some true
+  | "err" => some false
+  | _ => none
+
+def akind : String → Option AKind
+  | "pre" => some .pre
+  | "short" => some .short
+  | "post" => some .post
+  | _ => none
+
+def wrapKind : String → Option Wrap
+  | "boxed" => some .boxed
+  | "rcboxed" => some .rcBoxed
+  | "rc" => some .rc
+  | "refcell" => some .refCell
+  | "ref" => some .ref
+  | "box" => some .box
+  | _ => none
+
+partial def parseSvc : List String → Option (Svc × List String)
+  | "(" :: "leaf" :: id :: cp :: cok :: rp :: rok :: ")" :: t => do
+    some (.leaf (← num id) (← num cp) (← okErr cok) (← num rp) (← okErr rok), t)
+  | "(" :: "fn" :: id :: cok :: ")" :: t => do some (.fnSvc (← num id) (← okErr cok), t)
+  | "(" :: "map" :: t => do
+    let (s, t) ← parseSvc t
+    match t with | f :: ")" :: t => some (.map s (← num f), t) | _ => none
+  | "(" :: "maperr" :: t => do
+    let (s, t) ← parseSvc t
+    match t with | f :: ")" :: t => some (.mapErr s (← num f), t) | _ => none
+  | "(" :: "then" :: t => do
+    let (a, t) ← parseSvc t
+    let (b, t) ← parseSvc t
+    match t with | ")" :: t => some (.andThen a b, t) | _ => none
+  | "(" :: "apply" :: kind :: k :: t => do
+    let kind ← akind kind
+    let k ← num k
+    let (s, t) ← parseSvc t
+    match t with | ")" :: t => some (.applyFn s kind k, t) | _ => none
+  | "(" :: "mw" :: t => do
+    let (s, t) ← parseSvc t
+    match t with | k :: ")" :: t => some (.mw s (← num k), t) | _ => none
+  | "(" :: wk :: t => do
+    let wk ← wrapKind wk
+    let (s, t) ← parseSvc t
+    match t with | ")" :: t => some (.wrap wk s, t) | _ => none
+  | _ => none
+
+partial def parseFac : List String → Option (Fac × List String)
+  | "(" :: "fleaf" :: id :: ip :: iok :: uc :: t => do
+    let uc ← (match uc with | "cfg" => some true | "nocfg" => some false | _ => none)
+    let (s, t) ← parseSvc t
+    match t with | ")" :: t => some (.leaf (← num id) (← num ip) (← okErr iok) uc s, t) | _ => none
+  | "(" :: "ffn" :: id :: cok :: ")" :: t => do some (.fnSvc (← num id) (← okErr cok), t)
+  | "(" :: "fmap" :: t => do
+    let (a, t) ← parseFac t
+    match t with | f :: ")" :: t => some (.map a (← num f), t) | _ => none
+  | "(" :: "fmaperr" :: t => do
+    let (a, t) ← parseFac t
+    match t with | f :: ")" :: t => some (.mapErr a (← num f), t) | _ => none
+  | "(" :: "fmapiniterr" :: t => do
+    let (a, t) ← parseFac t
+    match t with | f :: ")" :: t => some (.mapInitErr a (← num f), t) | _ => none
+  | "(" :: "fthen" :: t => do
+    let (a, t) ← parseFac t
+    let (b, t) ← parseFac t
+    match t with | ")" :: t => some (.andThen a b, t) | _ => none
+  | "(" :: "fapply" :: kind :: k :: t => do
+    let kind ← akind kind
+    let k ← num k
+    let (a, t) ← parseFac t
+    match t with | ")" :: t => some (.applyFn a kind k, t) | _ => none
+  | "(" :: "transform" :: tr :: tp :: tok :: rcf :: t => do
+    let _ ← (match rcf with | "rc" => some true | "plain" => some false | _ => none)
+    let (a, t) ← parseFac t
+    match t with | ")" :: t => some (.transform (← num tr) (← num tp) (← okErr tok) a, t) | _ => none
+  | "(" :: "applycfg" :: t => do
+    let (s, t) ← parseSvc t
+    match t with
+    | f :: ip :: iok :: ")" :: t => some (.applyCfg s (← num f) (← num ip) (← okErr iok), t)
+    | _ => none
+  | "(" :: "applycfgfac" :: t => do
+    let (a, t) ← parseFac t
+    match t with
+    | f :: ip :: iok :: ")" :: t => some (.applyCfgFac a (← num f) (← num ip) (← okErr iok), t)
+    | _ => none
+  | "(" :: "mapconfig" :: t => do
+    let (a, t) ← parseFac t
+    match t with | f :: ")" :: t => some (.mapConfig a (← num f), t) | _ => none
+  | "(" :: "unitconfig" :: t => do
+    let (a, t) ← parseFac t
+    match t with | ")" :: t => some (.unitConfig a, t) | _ => none
+  | "(" :: "fboxed" :: t => do
+    let (a, t) ← parseFac t
+    match t with | ")" :: t => some (.boxed a, t) | _ => none
+  | "(" :: "frc" :: t => do
+    let (a, t) ← parseFac t
+    match t with | ")" :: t => some (.rc a, t) | _ => none
+  | _ => none
+
+def svcLeafIds : Svc → List Nat
+  | .leaf id _ _ _ _ => [id]
+  | .fnSvc _ _ => []
+  | .map s _ => svcLeafIds s
+  | .mapErr s _ => svcLeafIds s
+  | .andThen a b => svcLeafIds a ++ svcLeafIds b
+  | .applyFn s _ _ => svcLeafIds s
+  | .wrap _ s => svcLeafIds s
+  | .mw s _ => svcLeafIds s
+
+def facLeafIds : Fac → List Nat
+  | .leaf _ _ _ _ s => svcLeafIds s
+  | .fnSvc _ _ => []
+  | .map a _ => facLeafIds a
+  | .mapErr a _ => facLeafIds a
+  | .mapInitErr a _ => facLeafIds a
+  | .andThen a b => facLeafIds a ++ facLeafIds b
+  | .applyFn a _ _ => facLeafIds a
+  | .transform _ _ _ a => facLeafIds a
+  | .applyCfg s _ _ _ => svcLeafIds s
+  | .applyCfgFac a _ _ _ => facLeafIds a
+  | .mapConfig a _ => facLeafIds a
+  | .unitConfig a => facLeafIds a
+  | .boxed a => facLeafIds a
+  | .rc a => facLeafIds a
+
+def resStr : Res → String
+  | .ok v => s!"ok:{v}"
+  | .err e => s!"err:{e}"
+
+def rdyStr : Rdy → String
+  | .pending => "-"
+  | .ok => "ok"
+  | .err e => s!"err:{e}"
+
+def evtStr : Evt → String
+  | .called id req => s!"c{id}:{req}"
+  | .polled id w none => s!"p{id}@{w}=-"
+  | .polled id w (some r) => s!"p{id}@{w}={resStr r}"
+  | .repoll id w => s!"X{id}@{w}"
+  | .mapped f v => s!"m{f}:{v}"
+  | .mappedErr f e => s!"e{f}:{e}"
+  | .wrapFn k req => s!"a{k}:{req}"
+  | .post t v => s!"o{t}:{v}"
+  | .mw t req => s!"w{t}:{req}"
+  | .rdy id w out => s!"r{id}@{w}={rdyStr out}"
+  | .rdyMapErr f e => s!"e{f}:{e}"
+  | .new id cfg => s!"n{id}:{cfg}"
+  | .ipolled id w none => s!"i{id}@{w}=-"
+  | .ipolled id w (some none) => s!"i{id}@{w}=ok"
+  | .ipolled id w (some (some e)) => s!"i{id}@{w}=err:{e}"
+  | .irepoll id w => s!"Y{id}@{w}"
+  | .cfgMapped f c => s!"g{f}:{c}"
+  | .initErrMapped f e => s!"h{f}:{e}"
+  | .newTransform t => s!"t{t}"
+  | .cfgFn f cfg => s!"f{f}:{cfg}"
+
+def isPanic : Evt → Bool
+  | .repoll .. => true
+  | .irepoll .. => true
+  | _ => false
+
+/-- the log up to (not including) the first panic, and whether there was one -/
+def cutPanic : List Evt → List Evt × Bool
+  | [] => ([], false)
+  | e :: l => if isPanic e then ([], true) else
+    let (l', p) := cutPanic l
+    (e :: l', p)
+
+def render (log : List Evt) (r : String) : String :=
+  let (l, p) := cutPanic log
+  "[" ++ ",".intercalate (l.map evtStr) ++ "] r=" ++ (if p then "panic" else r)
+
+def fuel : Nat := 64
+
 def step (st : State) (line : String) : State × String :=
-  match words line with
+  match tokenize line with
   | "case" :: _ => (init, "ok")
+  | "svc" :: t =>
+    match parseSvc t with
+    | some (s, []) => if (svcLeafIds s).Nodup then ({ st with svc := some s }, "ok") else (st, "bad-op")
+    | _ => (st, "bad-op")
+  | ["ready"] =>
+    match st.svc with
+    | none => (st, "bad-op")
+    | some s =>
+      let (s', r, l) := pollReady s st.w
+      ({ svc := some s', w := st.w + 1 }, render l (match r with | .pending => "pending" | r => rdyStr r))
+  | ["call", req] =>
+    match st.svc, num req with
+    | some s, some req =>
+      let (fu, l0) := call s req
+      let (r, l, w') := drive fuel fu st.w
+      ({ st with w := if r.isSome then w' + 1 else w' }, render (l0 ++ l) (match r with | some r => resStr r | none => "stuck"))
+    | _, _ => (st, "bad-op")
+  | "fac" :: t =>
+    match parseFac t with
+    | some (f, [cfg]) =>
+      match num cfg with
+      | some cfg =>
+        if (facLeafIds f).Nodup then
+          let (fu, l0) := newService f cfg
+          let (r, l, w') := idrive fuel fu st.w
+          let p := (cutPanic (l0 ++ l)).2
+          match r, p with
+          | some (.ok s), false => ({ svc := some s, w := w' + 1 }, render (l0 ++ l) "ok")
+          | some (.err e), _ => ({ svc := none, w := w' + 1 }, render (l0 ++ l) s!"err:{e}")
+          | some (.ok _), true => ({ svc := none, w := w' + 1 }, render (l0 ++ l) "ok")
+          | none, _ => ({ svc := none, w := w' }, render (l0 ++ l) "stuck")
+        else (st, "bad-op")
+      | none => (st, "bad-op")
+    | _ => (st, "bad-op")
   | _ => (st, "bad-op")
 
 end Driver.Svc
